@@ -438,3 +438,45 @@ wr_fixed_entry!(wr_v5_entry_1, v5::V5Parser, V5, 5, 48, 1, 0);
 wr_fixed_entry!(wr_v5_entry_1_cut, v5::V5Parser, V5, 5, 48, 1, 4);
 wr_fixed_entry!(wr_v7_entry_1, v7::V7Parser, V7, 7, 52, 1, 0);
 wr_fixed_entry!(wr_v7_entry_0, v7::V7Parser, V7, 7, 52, 0, 0);
+
+/// C12 across calls: `allowed_versions` is a public field; what it holds *at the time of the
+/// call* decides.  A header-only packet of version v is accepted, v is then removed from
+/// the set (replaced by an arbitrary other number), and the same packet is offered again:
+/// nothing may be reported and the caches stay untouched.
+macro_rules! w_allowed_narrowed {
+    ($name:ident, $v:expr) => {
+        #[kani::proof]
+        #[kani::stub(core::fmt::write, no_fmt)]
+        #[kani::stub(netflow_parser::static_versions::v5::V5Parser::parse, v5_model)]
+        #[kani::stub(netflow_parser::static_versions::v7::V7Parser::parse, v7_model)]
+        #[kani::stub(netflow_parser::variable_versions::v9::V9Parser::parse, v9_model)]
+        #[kani::stub(netflow_parser::variable_versions::ipfix::IPFixParser::parse, ipfix_model)]
+        fn $name() {
+            const V: u16 = $v;
+            const N: usize = match V {
+                5 | 7 => 24,
+                9 => 20,
+                _ => 16,
+            };
+            let mut buf: [u8; N] = kani::any();
+            put16(&mut buf, 0, V);
+            put16(&mut buf, 2, if V == 10 { 16 } else { 0 });
+            let other: u16 = kani::any();
+            kani::assume(other != V);
+            let mut p = NetflowParser::default();
+            let r1 = p.parse_bytes(&buf);
+            assert!(r1.len() == 1);
+            core::mem::forget(r1);
+            // narrow the public allow-list between two calls
+            p.allowed_versions.remove(&V);
+            p.allowed_versions.insert(other);
+            let r2 = p.parse_bytes(&buf);
+            assert!(r2.len() == 0);
+            core::mem::forget(r2);
+            core::mem::forget(p);
+        }
+    };
+}
+w_allowed_narrowed!(w_allowed_narrowed_5, 5);
+w_allowed_narrowed!(w_allowed_narrowed_9, 9);
+w_allowed_narrowed!(w_allowed_narrowed_10, 10);
